@@ -843,7 +843,11 @@ fn odd_sizes<const N: usize, const D: usize>(reg: Reg, rng: &mut Prng, col: &mut
         col.event("calls_returned");
         trace.push(format!("{}:{}", ["silent", "benign", "benign", "hostile-mac", "longer-than-buffer", "fills-buffer"][what as usize], r.kind()));
         if let Resp::Panic(m, l) = &r {
-            col.violation(&format!("C04|panic|{}|{}|odd-sizes:N={},D={}", short_loc(l), lrv_core::runner::Trapped { msg: m.clone(), loc: l.clone() }.kind(), N, D), "a call into the stack panicked", json!({"region": reg.name(), "buffer": N, "queue": D, "step": i, "trace": trace, "msg": m, "loc": l}));
+            if m == "rng-budget" {
+                col.violation(&format!("C04|hang|rng-budget|{}|odd-sizes:N={},D={}", if reg.fixed() { "fixed" } else { "dynamic" }, N, D), "a call drew more than 4096 random numbers without returning (channel selection does not terminate)", json!({"region": reg.name(), "buffer": N, "queue": D, "step": i, "trace": trace}));
+            } else {
+                col.violation(&format!("C04|panic|{}|{}|odd-sizes:N={},D={}", short_loc(l), lrv_core::runner::Trapped { msg: m.clone(), loc: l.clone() }.kind(), N, D), "a call into the stack panicked", json!({"region": reg.name(), "buffer": N, "queue": D, "step": i, "trace": trace, "msg": m, "loc": l}));
+            }
             return;
         }
         if !lazy {
